@@ -77,7 +77,7 @@ pub fn build(tier: Tier) -> Vec<Arc<ExchCfg>> {
             menu.allow_giveup = true;
             let mut cfg = ExchCfg::new("C11", r.cfg.clone(), r.body.clone(), srv, trailing, menu).expect("cfg");
             cfg.scope = |k| {
-                k.starts_with("try-read-100:") || k.starts_with("proceed:") || k.starts_with("try-response:late-100") || k == "try-response:wrong-response" || k == "try-response:complete-head-not-accepted" || k == "try-response:acts-on-incomplete-head" || k.starts_with("try-response:error") || k.starts_with("verdict:") || k == "final:request-body-incomplete" || k == "no-path-to-completion" || k == "no-final-state" || k.starts_with("canonical:") || k.starts_with("graph:")
+                k.starts_with("try-read-100:") || k.starts_with("proceed:") || k.starts_with("try-response:") || k.starts_with("verdict:") || k == "final:request-body-incomplete" || k == "no-path-to-completion" || k == "no-final-state" || k.starts_with("canonical:") || k.starts_with("graph:")
             };
             out.push(Arc::new(cfg));
         }
